@@ -1525,7 +1525,15 @@ where
     D::Doc: Clone + Pretty<'a, D, A>,
     A: Clone,
 {
-    print_leaf_children(children, ctx, allocator)
+    // = default_expr
+    allocator
+        .space()
+        .append(allocator.intersperse(
+            children
+                .iter()
+                .map(|&child| cst_to_doc(child, ctx, allocator)),
+            allocator.space(),
+        ))
 }
 
 // ============================================================================
@@ -1547,7 +1555,7 @@ where
     A: Clone,
 {
     // Collect items between delimiters, excluding commas
-    let mut items = Vec::new();
+    let mut items: Vec<DocBuilder<'a, D, A>> = Vec::new();
     let mut open_doc = allocator.nil();
     let mut close_doc = allocator.nil();
     let mut found_open = false;
@@ -1575,7 +1583,24 @@ where
         }
 
         if found_open {
-            items.push(cst_to_doc(child, ctx, allocator));
+            // A type annotation or a default value belongs to the parameter before it
+            // (`x: float = 1.0` is one item, not three).
+            let attaches = matches!(
+                node,
+                mimium_lang::compiler::parser::green::GreenNode::Internal {
+                    kind: SyntaxKind::TypeAnnotation | SyntaxKind::ParamDefault,
+                    ..
+                }
+            );
+            let doc = cst_to_doc(child, ctx, allocator);
+            match items.pop() {
+                Some(prev) if attaches => items.push(prev.append(doc)),
+                Some(prev) => {
+                    items.push(prev);
+                    items.push(doc);
+                }
+                None => items.push(doc),
+            }
         }
     }
 
